@@ -19,11 +19,12 @@ CLOSED_THEOREMS = ["C15_det_lemma", "C15_capacitance_invertible", "C15_woodbury"
 REQUIRED_THEOREMS = CLOSED_THEOREMS + ["C15_lse_spec", "C15_lse_shift", "C15_lse_max_is_entry", "C15_lse_no_overflow", "C15_lse_neginf",
                                        "C15_lse_neginf_shift", "C15_lse_all_neginf_is_nan"]
 COQ_PREFIXES = ["C15", "C19"]           # C15_ROps / C15_RProofs import the shared real instance ROps of C19_ROps.v
-RULE = ("cases from one seeded stream. uvr: num_blocks 1..4, block_size with d = num_blocks*block_size <= 8, batch 1..5, k 1..4, "
+RULE = ("a fixed corpus first (ties at the maximum, uniform log-weights of length 100, ties beside -inf, b = 0, k = 0, nearly singular R), then cases from one seeded stream. uvr: num_blocks 1..4, block_size with d = num_blocks*block_size <= 8, batch 1..5, k 1..4, "
         "R shared (one block) or per block (SPD blocks, cond <= 1e5), V = U^T / W U^T (W symmetric) / general (S not symmetric, symmetric part PD) / zero, "
+        "also (about 1 in 6) empty batch b = 0, k = 0 (U d x 0), and R nearly singular (block cond 1e2..1e6) with a well conditioned S and a general V (worst Woodbury cancellation); "
         "assembled S with cond <= 1e6, evaluation points near the mean and far away (thorough: 15% of the cases with d up to 12, up to 5 blocks, k up to 6); "
         "every call repeated with the arguments passed as blocks/segments of larger buffers; lse: length 1..50, entries in [-1e4,1e4] "
-        "(uniform / clustered at +-1e4 / equal / largest magnitude negative / with -inf / all -inf), dyadic so that the shift is exact, "
+        "(uniform / clustered at +-1e4 / equal / largest magnitude negative / maximum occurring 2..n times / ties beside -inf / Constant(n, -log n) / with -inf / all -inf), dyadic so that the shift is exact, "
         "also as row vector, strided row, matrix and expression argument. "
         "non-trivial = uvr with num_blocks >= 2 or shared encoding, lse with length >= 2; "
         "distinct by (d, block_size, k, encoding, V kind, batch>1, cond decade) resp. (lse kind, length bucket, has -inf)")
@@ -31,7 +32,9 @@ TRUSTED_BASE = ["Coq 8.16.1 kernel (coqc)",
                 "matrix theorems (Woodbury, determinant lemma, block-diagonal inverse/determinant, UVR = direct, definitions): no axioms (MathComp 1.15; ln/exp/pi uninterpreted)",
                 "log-sum-exp theorems: Coq Reals, the four standard axioms (sig_forall_dec, sig_not_dec, functional_extensionality_dep, classic)",
                 "extraction (ExtrOcamlBasic only) and ocaml/float_ops.ml, ocaml/drv_C15.ml, ocaml/caseio.ml",
-                "ListOps list instance of MatOps (structural operations and Gauss-Jordan inverse/determinant, unproved)",
+                "ListOps list instance of MatOps (structural operations and Gauss-Jordan inverse/determinant): unproved in general; its linv/ldet are "
+                "validated against exact rational inverses/determinants for sizes 1..6 incl. row swaps (Example C15_gauss_jordan_exact_Q, re-checked on every run), "
+                "and the oracle's spec values are additionally computed by numpy (slogdet/solve), independently of that routine",
                 "cpp/h_C15.cpp harness; tolerances derived from the constructed conditioning (cond R, cond(I+V R^-1 U), cond S, size of the cancelling Woodbury terms)",
                 "EOps (coq/C15_ROps.v): the extension of the reals by -inf with the IEEE meaning of + - < exp ln stated there (Bad = +inf/NaN, absorbing)",
                 "numpy float64/longdouble reference values in the oracle",
@@ -87,7 +90,7 @@ def gen_uvr(rng, cid, big=False, force=None):
             # S = U V + R is well conditioned although R is nearly singular (worst cancellation in the Woodbury form)
             def nsblock():
                 q = gen.orthogonal(rng, bs)
-                ev = np.array([lo * 10 ** -rng.uniform(2, 6)] + [lo * 10 ** rng.uniform(0, 1) for _ in range(bs - 1)])
+                ev = np.array([lo * 10 ** -rng.uniform(2, 5)] + [lo * 10 ** rng.uniform(0, 1) for _ in range(bs - 1)])
                 B = (q * ev) @ q.T
                 return (B + B.T) / 2, q[:, 0]
             if enc == "shared":
@@ -150,7 +153,7 @@ def gen_uvr(rng, cid, big=False, force=None):
         # evaluation points: S^(1/2)-scaled around the mean, some far away
         Ssym = (S + S.T) / 2
         L = np.linalg.cholesky(Ssym)
-        far = 10 ** rng.choice([0, 0, 0, 1, 2])
+        far = 10 ** rng.choice([0, 0, 0, 1, 2]) if kind != "nearsing" else 1
         inp = (mean + far * (L @ gen.matrix(rng, d, b).reshape(d, b))).reshape(d, b)
         if b > 0 and rng.random() < 0.1:
             inp[:, 0] = mean[:, 0]          # a point exactly at the mean
